@@ -18,6 +18,8 @@ def systems(n, dtype):
     out.append(("atan-no-root", lambda x: np.arctan(x) - 2, lambda x: np.diag(1 / (1 + x.reshape(-1) ** 2)), None, False))
     out.append(("double-root", lambda x: (x - 1) ** 2, lambda x: np.diag(2 * (x.reshape(-1) - 1)), np.ones(n, dtype=dtype), True))
     out.append(("exp", lambda x: np.exp(x) - c.reshape(x.shape), lambda x: np.diag(np.exp(x.reshape(-1))), np.log(c), True))
+    # arctan(v) = 0 (root at the origin): Newton-type steps overshoot from |v| > 1.39 and the iterates run away to where the Jacobian vanishes
+    out.append(("atan-root", lambda x: np.arctan(x), lambda x: np.diag(1 / (1 + x.reshape(-1) ** 2)), np.zeros(n, dtype=dtype), True))
     # steep systems that do have a root, started where the residual is astronomically large (step-size rule under stress)
     out.append(("steep-exp", lambda x: np.exp(40 * x) - 1, lambda x: np.diag(40 * np.exp(40 * x.reshape(-1))), np.zeros(n, dtype=dtype), True))
     out.append(("septic", lambda x: x ** 7 - 1, lambda x: np.diag(7 * x.reshape(-1) ** 6), np.ones(n, dtype=dtype), True))
@@ -53,12 +55,14 @@ def main():
 
     dims = (1, 2, 3, 6, 12) if thorough else (1, 2, 5)
     for dtype in (np.float64, np.longdouble):
-        tol = 32 * np.finfo(dtype).eps * 1e3
+        tol0 = 32 * np.finfo(dtype).eps * 1e3
         for n in dims:
             shapes = [(n,)] + ([(n, 1)] if n > 1 else []) + ([(2, n // 2)] if n % 2 == 0 and n > 2 else [])
             for shape in shapes:
                 for name, F, J, root, has_root in systems(n, dtype):
                     starts = [("good", (root if root is not None else np.zeros(n)) + 0.1), ("bad", np.full(n, 25.0)), ("at-singular", np.ones(n) if name == "double-root" else np.full(n, 1e-3))]
+                    if name == "atan-root":
+                        starts = [("good", np.full(n, 0.5)), ("bad", np.array([3.0, -4.0] * n)[:n])]
                     if name == "steep-exp":
                         starts = [("good", np.full(n, 0.01)), ("bad", np.linspace(0.5, 1.0, n))]
                     if name == "septic":
@@ -66,10 +70,11 @@ def main():
                     for sname, x0 in starts:
                         x0 = np.asarray(x0, dtype=dtype).reshape(shape)
                         for with_jac in (True, False):
+                          for tol in ((tol0, dtype(1e-10)) if name.startswith("atan") else (tol0,)):
                             for solver in ("nonlinear_roots", "hybrj", "newtontrustregion"):
                                 if solver == "hybrj" and not with_jac and name not in ("steep-exp", "septic"):
                                     continue
-                                info = dict(system=name, n=n, shape=list(shape), dtype=np.dtype(dtype).name, start=sname, jac=with_jac, solver=solver)
+                                info = dict(system=name, n=n, shape=list(shape), dtype=np.dtype(dtype).name, start=sname, jac=with_jac, solver=solver, tol_requested=float(tol))
                                 cases[0] += 1
                                 try:
                                     if solver == "nonlinear_roots":
@@ -88,14 +93,16 @@ def main():
                                     continue
                                 resid = float(np.linalg.norm(np.asarray(F(x), dtype=np.longdouble)))
                                 if success and not (resid <= 1e3 * tol * (n + 1)):
-                                    fail("success-with-large-residual[%s]" % solver, residual=resid, tol=float(tol), **info)
+                                    runaway = float(np.linalg.norm(np.asarray(x, dtype=np.longdouble))) > 1e6
+                                    fail(("success-with-large-residual-after-the-iterates-ran-away[%s]" if runaway else "success-with-large-residual[%s]") % solver,
+                                         residual=resid, tol=float(tol), x_norm=float(np.linalg.norm(np.asarray(x, dtype=np.longdouble))), **info)
                                 if solver == "nonlinear_roots":
                                     prec = float(np.asarray(res[-1], dtype=np.longdouble).reshape(-1)[0]) if np.ndim(res[-1]) else float(res[-1])
                                     if success and abs(prec - resid) > 1e-6 * max(1.0, resid) + 10 * float(tol):
                                         fail("reported-residual-is-not-the-residual-at-the-returned-point", reported=prec, residual=resid, **info)
                                 if not has_root and success:
                                     fail("success-on-a-system-without-a-root[%s]" % solver, residual=resid, **info)
-    json.dump(dict(bound="7 smooth systems x n in %s x shapes x float64/longdouble x 3 starts x with/without Jacobian x 3 solvers" % (list(dims),), cases=cases[0], failures=failures), sys.stdout)
+    json.dump(dict(bound="8 smooth systems x n in %s x shapes x float64/longdouble x 3 starts x with/without Jacobian x 3 solvers" % (list(dims),), cases=cases[0], failures=failures), sys.stdout)
 
 
 if __name__ == "__main__":
